@@ -132,7 +132,7 @@ def check(run):
     ins = [c for c in st.calls() if (c.get('callee') or '').endswith('::insert') and q.render(st, c.get('obj')) == 'p.buffer']
     loops = [n for n in st.all_nodes() if n['k'] in ('for', 'rangefor', 'while') and any(x is c for c in ins for x in walk(n['body']))]
     run.check(len(ins) == 1 and len(loops) == 1 and 'p.buffer.end()' in q.render(st, ins[0]['args'][0]), 'R4', 'datagram-whole', st.norm, st.loc(), 'the datagram is not the concatenation of all send buffers appended in order', 'every buffer appended at the end of one packet')
-    run.floor('R4', 8)
+    run.floor('R4', 5)
 
 
 def cwnd_follows_mss(run, rule='R4'):
